@@ -1,7 +1,9 @@
 (* C13 - Gossip payloads carry exactly what is new and lose nothing queued.
    First sentence (delta exactness): theorems on Model/Lww.v.  Second sentence (coalescing in the
-   transport): proved for a sender whose Merge returns the union (mesh's contract); the current
-   event.State.Merge returns the delta instead - see Findings/C13.v and known_findings.json. *)
+   transport): mesh's gossipSender keeps pending.Merge(next); the swarm hands it payloads whose Merge
+   keeps the union in the pending object (cluster/swarm.go payload, Model/Sender.v), so the payload
+   finally sent carries every update that was queued.  (Before the repair event.State.Merge itself
+   was used: it returns the delta - Findings/C13.v keeps those witnesses.) *)
 From stdpp Require Import gmap.
 From Coq Require Import ZArith.
 From Emitter Require Import Model.Lww Model.Sender Proofs.LwwProofs Proofs.SenderProofs.
@@ -38,16 +40,32 @@ Theorem C13_delta_lossless : forall s r k, nonneg s ->
 Proof. exact delta_lossless. Qed.
 Print Assumptions C13_delta_lossless.
 
-(* coalescing - PARTIAL: holds for a Merge that returns the union, which is what mesh's sender
-   assumes.  Full statement (for the code's own Merge): see C13_coalesce_refuted in Findings. *)
-Theorem C13_coalesce_union_partial : forall ps p0 k,
+(* coalescing: whatever number of deltas is queued on a link before it sends, the payload sent
+   carries, for every key, the latest add and the latest remove time of all of them *)
+Theorem C13_coalesce : forall ps p0 k,
   nonneg p0 ->
-  match fold_left sender_send_union ps (Some p0) with
+  match fold_left sender_send ps (Some p0) with
   | Some out => tadd out k = tmax_add ps k (tadd p0 k) /\ tdel out k = tmax_del ps k (tdel p0 k) /\ nonneg out
   | None => False
   end.
 Proof. exact union_sender_complete. Qed.
-Print Assumptions C13_coalesce_union_partial.
+Print Assumptions C13_coalesce.
+
+(* the slot that may also hold the complete state: the complete state supersedes pending deltas and
+   stays; it is never replaced by less *)
+Theorem C13_full_state_slot : forall s full data,
+  (s = SFull -> slot_send s full data = SFull)
+  /\ (full = true -> slot_send s full data = SFull)
+  /\ (forall p, s = SData p -> full = false -> slot_send s full data = SData (lww_merge p data))
+  /\ (s = SNone -> full = false -> slot_send s full data = SData data).
+Proof.
+  intros s full data. refine (conj _ (conj _ (conj _ _))).
+  - intros ->. reflexivity.
+  - intros ->. destruct s; reflexivity.
+  - intros p -> ->. reflexivity.
+  - intros -> ->. reflexivity.
+Qed.
+Print Assumptions C13_full_state_slot.
 
 Example C13_nonvacuous :
   lww_delta (lww_add ∅ 1%N [] 3 3) (lww_add (lww_del ∅ 1%N 9 9) 1%N [7%N] 2 2) !! 1%N = Some (Ent 0 9 [7%N]).
